@@ -6,6 +6,7 @@ import (
 	"strconv"
 	"strings"
 	"sync"
+	"sync/atomic"
 	"time"
 
 	"github.com/fatedier/frp/pkg/msg"
@@ -90,7 +91,8 @@ func portOfAddr(addr string) int {
 type autoPeer struct {
 	*peer.Peer
 	Alias    string
-	Takeover bool // onStart owns the connection afterwards
+	Takeover bool  // onStart owns the connection afterwards
+	Starts   int32 // StartWorkConn messages received (atomic)
 	onStart  func(ap *autoPeer, sw *msg.StartWorkConn, c net.Conn)
 	stop     chan struct{}
 	mu       sync.Mutex
@@ -130,6 +132,7 @@ func (ap *autoPeer) loop() {
 				c.Close()
 				return
 			}
+			atomic.AddInt32(&ap.Starts, 1)
 			if ap.onStart != nil {
 				ap.onStart(ap, &sw, c)
 			}
